@@ -22,7 +22,7 @@ RULE = (
 )
 ASSUMPTIONS = [
     "alignment padding blocks that join_byte_intervals adds (nops only, no edge, no symbol) are transparent, like an .align directive of the listing",
-    "retarget_to_proxy redirects the control flow into the deleted block to its fresh proxy (documented); a fallthrough edge to that proxy is accepted; a block that runs off the end of the code may fall through to a proxy",
+    "retarget_to_proxy redirects the control flow into the deleted block to its fresh proxy (documented); a fallthrough edge to that proxy is accepted, and when the deleted block was the return site of a call the callee's return edge to that same proxy is accepted; a block that runs off the end of the code may fall through to a proxy",
     "requests that leave code running off into data or the end of the section (the terminator of the last code block before data is deleted, or code that can fall through is appended there) are outside the property's domain (modules whose CFG is consistent with their code) and are not judged",
     "return-edge exactness has three recorded findings (known_findings.json), recognised on the request set: a patch containing a return inserted into a function, a call whose target block is wholly deleted, a wholly deleted block that called its own function",
 ]
